@@ -268,6 +268,72 @@ def drain(I, st, it, depth, step, init, limit=64):
     return out
 
 
+SUBSEQ = None     # (interp, state, seq, a, b) -> the slice seq[a..b] under its canonical name (set by rules/psai.py); default below
+
+
+def _subseq(I, st, sq, a, b):
+    if SUBSEQ is not None:
+        return SUBSEQ(I, st, sq, a, b)
+    if a == Aff(0) and b == sq.length:
+        return sq
+    return Seq("%s[%r..%r]" % (sq.name, a, b), b.sub(a), kind=sq.kind)
+
+
+@imodel(r"^core::str::<impl str>::bytes$")
+def m_str_bytes(I, st, info, args, depth):
+    """the bytes of a text, traversed by value: the same byte sequence"""
+    x = deref(I, st, args[0])
+    return ret(st, x) if isinstance(x, (StrV, Seq)) else None
+
+
+def _cursor(x):
+    return isinstance(x, Struct) and x.adt == "ByteCursor"
+
+
+@imodel(r"^core::iter::traits::collect::IntoIterator::into_iter$")
+def m_cursor_new(I, st, info, args, depth):
+    """an opaque byte array of known length traversed by value (`digest.into_iter()`): a cursor over it; `by_ref().take(n).collect()`
+    cuts the next n bytes off, `collect()` the rest"""
+    if info["def"] in I.facts.bodies:
+        return None
+    x = deref(I, st, args[0])
+    if isinstance(x, Seq) and x.elems is None and x.chunks is None and x.kind in ("array", "bytes") and x.length.is_const() and not x.attrs.get("top") \
+            and not isinstance(I.resolve(st, args[0]), Ptr) and re.search(r"GenericArray<|\[u8; ", info["name"]):
+        return ret(st, Struct("ByteCursor", None, {"seq": x, "pos": Aff(0), "take": Aff(-1), "of": UNIT}))
+    return None
+
+
+@imodel(r"^core::iter::traits::iterator::Iterator::(by_ref|take|collect)$|^core::iter::traits::collect::FromIterator::from_iter$")
+def m_cursor_ops(I, st, info, args, depth):
+    k = info["tdef"].split("::")[-1]
+    p = I.resolve(st, args[0])
+    x = deref(I, st, args[0])
+    if not _cursor(x):
+        return None
+    if k == "by_ref":
+        return ret(st, args[0])
+    if k == "take":
+        n = I.resolve(st, args[1])
+        if not (isinstance(n, Aff) and n.is_const()) or x.fields["take"].const >= 0:
+            return None
+        # `cursor.by_ref().take(n)`: remembers where the cursor lives so that drawing from it advances the cursor
+        return ret(st, Struct("ByteCursor", None, {"seq": x.fields["seq"], "pos": x.fields["pos"], "take": n, "of": p if isinstance(p, Ptr) else UNIT}))
+    sq, pos, take = x.fields["seq"], x.fields["pos"], x.fields["take"].const
+    owner = x.fields["of"]
+    if isinstance(owner, Ptr):
+        cur = deref(I, st, owner)
+        if _cursor(cur):
+            pos = cur.fields["pos"]
+    end = sq.length if take < 0 else Aff(min(pos.const + take, sq.length.const))
+    out = _subseq(I, st, sq, pos, end)
+    if isinstance(owner, Ptr) and _cursor(deref(I, st, owner)):
+        cur = deref(I, st, owner)
+        I.store_to(st, owner, Struct("ByteCursor", None, dict(cur.fields, pos=end)))
+    elif isinstance(p, Ptr):
+        I.store_to(st, p, Struct("ByteCursor", None, dict(x.fields, pos=end)))
+    return ret(st, out)
+
+
 # ------------------------------------------------------------------ sources
 @imodel(r"^core::iter::traits::collect::IntoIterator::into_iter$|^core::option::Option::<T>::(iter|iter_mut)$|^std::collections::hash::map::HashMap::<K, V, S(, A)?>::(iter|iter_mut|into_iter|drain)$|^core::slice::<impl \[T\]>::iter$|^alloc::vec::Vec::<T, A>::(iter|drain)$|^serde_json::map::Map::<.*>::(iter|into_iter)$")
 def m_into_iter(I, st, info, args, depth):
@@ -302,6 +368,70 @@ def m_keys(I, st, info, args, depth):
     return ret(st, iterv([e.fields[which] for e in _entries(x)], byref=byref))
 
 
+def materialise(I, st, it, depth):
+    """the items a lazy iterator yields, as a list, when drawing it to its end is deterministic (one path, no failure); None otherwise"""
+    outs = drain(I, st, it, depth, lambda s, a, item: [(s, "cont", a + [item])], [])
+    if len(outs) != 1 or outs[0][1] != "done" or outs[0][0] is not st:
+        return None
+    return outs[0][2]
+
+
+def _as_seq(I, st, v, depth):
+    """a sequence value for what `v` yields when traversed: a lazy iterator drawn to its end, or the (possibly opaque) sequence itself"""
+    x = deref(I, st, v)
+    if isinstance(x, StrV) or (isinstance(x, Seq) and not x.attrs.get("top") and not (x.elems is not None and any(isinstance(deref(I, st, e_), (Seq, StrV, Struct)) for e_ in x.elems))):
+        return x
+    it = as_iter(I, st, v)
+    if it is not None:
+        items = materialise(I, st, it, depth)
+        if items is None:
+            return None
+        items = [deref(I, st, i_) if it.fields["byref"].b and isinstance(I.resolve(st, i_), Ptr) else i_ for i_ in items]
+        return Seq("items", Aff(len(items)), items, kind="bytes" if all(isinstance(I.resolve(st, i_), (Aff, MD.Bits)) for i_ in items) else "vec")
+    return None
+
+
+@imodel(r"^core::array::<impl \[T; N\]>::map$")
+def m_array_map(I, st, info, args, depth):
+    """[a, b, c].map(f): the array of the results, in order (when every call has one outcome)"""
+    x = deref(I, st, args[0])
+    if not (isinstance(x, Seq) and x.elems is not None):
+        return None
+    out = []
+    for e in x.elems:
+        rs = list(I.call_value(st, args[1], [e], depth))
+        if len(rs) != 1 or rs[0][1] != "return" or rs[0][0] is not st:
+            return None
+        out.append(rs[0][2])
+    return ret(st, Seq("mapped@%d" % info["ln"], Aff(len(out)), out, kind="array"))
+
+
+@imodel(r"^core::iter::traits::iterator::Iterator::(flat_map|flatten)$")
+def m_flat_map(I, st, info, args, depth):
+    """every item is turned into a sequence (by the closure, or is one already); the result is those sequences one after the other"""
+    k = info["tdef"].split("::")[-1]
+    outer = _as_seq(I, st, args[0], depth)
+    if outer is None or outer.elems is None:
+        return None
+    chunks, ln = [], Aff(0)
+    byref = isinstance(deref(I, st, args[0]), Seq) or (is_iter(deref(I, st, args[0])) and deref(I, st, args[0]).fields["byref"].b)
+    for e in outer.elems:
+        v = e
+        if k == "flat_map":
+            arg = Ptr(st.new_cell(e), ()) if byref and not isinstance(I.resolve(st, e), Ptr) else e
+            rs = list(I.call_value(st, args[1], [arg], depth))
+            if len(rs) != 1 or rs[0][1] != "return" or rs[0][0] is not st:
+                return None
+            v = rs[0][2]
+        sq = _as_seq(I, st, v, depth)
+        if sq is None:
+            return None
+        c, l = MD.seq_chunks(I, st, sq)
+        chunks += c
+        ln = ln.add(l)
+    return ret(st, Seq("flat_map@%d" % info["ln"], ln, None, chunks, kind="vec"))
+
+
 # ------------------------------------------------------------------ adaptors
 ADAPT = r"^core::iter::traits::iterator::Iterator::(map|filter|filter_map|enumerate|skip|take|skip_while|take_while|inspect|cloned|copied|by_ref|peekable|fuse)$"
 
@@ -310,7 +440,7 @@ ADAPT = r"^core::iter::traits::iterator::Iterator::(map|filter|filter_map|enumer
 def m_adapt(I, st, info, args, depth):
     k = info["tdef"].split("::")[-1]
     it = as_iter(I, st, args[0])
-    if it is None and k in ("cloned", "copied", "fuse") and isinstance(deref(I, st, args[0]), Seq):
+    if it is None and k in ("cloned", "copied", "fuse") and isinstance(deref(I, st, args[0]), (Seq, StrV)):
         return ret(st, deref(I, st, args[0]))     # an opaque element sequence traversed by value: the same elements
     if it is None:
         return None
@@ -340,6 +470,13 @@ def m_adapt2(I, st, info, args, depth):
         a, b = deref(I, st, args[0]), deref(I, st, args[1])
         okv = lambda x: (isinstance(x, Seq) and not x.attrs.get("top")) or (isinstance(x, Sym) and not x.attrs.get("adt"))
         if okv(a) and okv(b) and (isinstance(a, Seq) or isinstance(b, Seq)):
+            c1, l1 = MD.seq_chunks(I, st, a)
+            c2, l2 = MD.seq_chunks(I, st, b)
+            return ret(st, Seq("chain", l1.add(l2), None, c1 + c2, kind="vec"))
+    if k == "chain" and (it is None or it.fields["ops"].elems or as_iter(I, st, args[1]) is None or as_iter(I, st, args[1]).fields["ops"].elems):
+        # a lazy side with adaptors still pending, or an opaque side: each side as the sequence it yields, one after the other
+        a, b = _as_seq(I, st, args[0], depth), _as_seq(I, st, args[1], depth)
+        if a is not None and b is not None:
             c1, l1 = MD.seq_chunks(I, st, a)
             c2, l2 = MD.seq_chunks(I, st, b)
             return ret(st, Seq("chain", l1.add(l2), None, c1 + c2, kind="vec"))
